@@ -88,7 +88,8 @@ func c16(r *core.Run) {
 func c17(r *core.Run) {
 	r.Explanation = "Decided clauses: (R1) every row of interpreter.StringValueParsers and interpreter.BigEndianBytesConverters names one numeric type only (receiver type, bit-size literal, constructor, native Go type, bounds, byte length) " +
 		"and a row exists for every number type; (R2) the parse primitive class per row depends only on signedness/kind: signed integer rows use the signed parser, unsigned and Word rows the unsigned parser; " +
-		"(R3) ToBigEndianBytes / NewTValueFromBigEndianBytes of sibling widths agree modulo the family parameters (or fall into the reviewed classes); (R4) in the shared fromBigEndianBytes native function only the byte-array error, `byteLength != 0` and `len(bytes) > byteLength` decide between nil and a result."
+		"(R3) ToBigEndianBytes / NewTValueFromBigEndianBytes of sibling widths agree modulo the family parameters (or fall into the reviewed classes); (R4) in the shared fromBigEndianBytes native function only the byte-array error, `byteLength != 0` and `len(bytes) > byteLength` decide between nil and a result; " +
+		"(R5) every call of fixedpoint.CheckRange receives the fractional part scaled to the scale of the type's bounds."
 	r.NotDecided = "round-trip equality on values; formatting; address/path string constructors."
 	w := r.W
 	p := w.Pkg("interpreter")
@@ -107,6 +108,7 @@ func c17(r *core.Run) {
 	r.Floor("R1.rows", 48)
 	c17Acceptance(r)
 	c17NilExact(r)
+	c17FractionScale(r)
 	siblingRule(r, "R3.siblings", allFamilies, func(g string) bool {
 		return g == "interpreter.(§0Value).ToBigEndianBytes" || g == "interpreter.New§0ValueFromBigEndianBytes" || g == "..(§0).ToBigEndianBytes"
 	})
@@ -579,4 +581,58 @@ func guardedBy(f *ssa.Function, b *ssa.BasicBlock, isSrc func(ssa.Value) bool) b
 		}
 	}
 	return false
+}
+
+// c17FractionScale: R5 — the fixed-point range check compares like scales. The bounds handed to fixedpoint.CheckRange
+// (Min/MaxFractional of the type) are expressed at the type's scale, the parsed fractional digits at the scale of the
+// input ("92233720368.6" has fractional 6 at scale 1, the bound 54775807 at scale 8). Every call of CheckRange must
+// therefore pass a fractional value produced by a scaling function (one that multiplies by a power of ten), or
+// CheckRange must scale itself; a raw parsed fractional accepts out-of-range values whose Int64/Uint64 conversion wraps.
+func c17FractionScale(r *core.Run) {
+	const rule = "R5.scale"
+	w := r.W
+	isCheckRange := funcOf(mod+"/fixedpoint", "CheckRange")
+	scales := func(fn *ssa.Function) bool {
+		if fn == nil || len(fn.Blocks) == 0 {
+			return false
+		}
+		exp, mul := false, false
+		core.Instrs(fn, true, func(in ssa.Instruction) {
+			if c, ok := in.(ssa.CallInstruction); ok {
+				if o := core.Callee(c); o != nil && o.Pkg() != nil && o.Pkg().Path() == "math/big" {
+					switch o.Name() {
+					case "Exp":
+						exp = true
+					case "Mul":
+						mul = true
+					}
+				}
+			}
+		})
+		return exp && mul
+	}
+	n := 0
+	for _, fn := range w.SrcFuncs() {
+		if fn.Pkg == nil || !w.InScope(fn.Pkg.Pkg.Path()) {
+			continue
+		}
+		for _, c := range core.CallsTo(fn, false, isCheckRange) {
+			n++
+			key := core.SSAKey(fn) + " -> fixedpoint.CheckRange: fractional argument"
+			if scales(core.StaticFn(c)) {
+				r.OK(rule, key, posOf(c), "CheckRange scales the fractional part itself")
+				continue
+			}
+			args := c.Common().Args
+			ok := false
+			if len(args) >= 3 {
+				if call, isCall := core.Unwrap(args[2]).(*ssa.Call); isCall && scales(core.StaticFn(call)) {
+					ok = true
+				}
+			}
+			r.Check(ok, rule, key, posOf(c), "the fractional part is brought to the scale of the bounds before the comparison",
+				"the parsed fractional digits are compared with bounds of a different scale: e.g. Fix64.fromString(\"92233720368.6\") passes the range check (6 <= 54775807) and wraps to a negative value")
+		}
+	}
+	r.Floor(rule, 2)
 }
